@@ -32,6 +32,18 @@ def gen_system(rng, kind=None, small_limit=True):
         return sysd
     sysd["B"] = wchoice(rng, [(3, 0), (4, rng.randint(0, 6))])
     sysd["D"] = D
+    if rng.random() < 0.2:
+        # near-full utilisation (sporadic tasks): the busy window spans several jobs of the analysed
+        # task, late offsets matter; generous limit
+        hp, (a, C) = gen.gen_dense_taskset(rng)
+        sysd["limit"] = rng.randint(150, 400)
+        sysd["B"] = wchoice(rng, [(2, 0), (5, rng.randint(1, 4))])
+        sysd["arr"], sysd["C"] = a, C
+        sysd["last"] = wchoice(rng, [(1, 1), (2, C), (4, rng.randint(1, C))])
+        sysd["tua"] = ("rbf", a, ("sc", C))
+        sysd["others"] = [{"rb": ("rbf", x, ("sc", c)), "arr": x, "C": c, "D": dl(), "seg": (c if kind == "edf_np" else rng.randint(1, c))}
+                          for x, c in hp]
+        return sysd
     if kind in ("fp_p", "fp_fl", "edf_p", "edf_fl"):
         sysd["tua"] = gen.gen_rb_maybe_agg(rng, scalar=(rng.random() < 0.8))
     else:
@@ -203,9 +215,25 @@ def falsify_C06(ctx):
     ops2 = [system_op(sd) for sd in sds2]
     res = res + real(ops2)
     sds, ops = sds + sds2, ops + ops2
+    # correspondence-guided: the analysis operations on which model and code disagree are evaluated
+    # against the naive Spec as well (those the parser understands)
+    sds3 = []
+    for d in ((ctx.get("corr") or {}).get("disagreements") or []):
+        if d.get("op", "").split()[:1] and d["op"].split()[0] in ("fifo", "fp_p", "fp_np", "fp_lp", "fp_fl", "edf_p", "edf_np", "edf_lp", "edf_fl"):
+            try:
+                sd = system_from_op(d["op"])
+            except (Unsupported, ValueError, IndexError):
+                continue
+            if sd["limit"] <= 600 and system_op(sd).split()[0] == sd["kind"]:
+                sds3.append(sd)
+            if len(sds3) >= 60:
+                break
+    ops3 = [system_op(sd) for sd in sds3]
+    res = res + real(ops3)
+    sds, ops = sds + sds3, ops + ops3
     tabs = fetch_tables(sds)
     cex, samples, nontrivial = [], [], set()
-    dist = {"phase2_limits_around_bound": len(sds2)}
+    dist = {"phase2_limits_around_bound": len(sds2), "correspondence_guided_systems": len(sds3)}
     for sd, op, r, tb in zip(sds, ops, res, tabs):
         dist[sd["kind"]] = dist.get(sd["kind"], 0) + 1
         if tb is None:
@@ -220,7 +248,7 @@ def falsify_C06(ctx):
         elif len(samples) < 4 and exp.startswith("ok ") and exp != "ok 0" and sd["kind"] != "fifo" and sd["others"]:
             samples.append({"op": op, "impl": r, "naive_all_offsets": exp})
     return {"cases": len(sds), "nontrivial": len(nontrivial),
-            "rule": "random task systems for the nine dedicated-processor analyses (jitter, bursts, nested aggregates, deadlines on both sides, limits 0..90): real result vs naive evaluation (linear-scan least solutions, every offset A in [0,L), maximum) computed in Python from the REAL service_needed tables; non-trivial = distinct system with a positive bound",
+            "rule": "random task systems for the nine dedicated-processor analyses (jitter, bursts, nested aggregates, deadlines on both sides, limits 0..90): real result vs naive evaluation (linear-scan least solutions, every offset A in [0,L), maximum) computed in Python from the REAL service_needed tables; a fifth of the systems are near-full-utilisation sporadic task sets (long busy windows, many offsets); the analysis operations on which the correspondence disagrees are evaluated against the naive Spec as well; non-trivial = distinct system with a positive bound",
             "counterexamples": cex, "samples": samples, "distribution": dist}
 
 
@@ -559,6 +587,56 @@ def parse_sched_op(op):
         # a lower-priority task whose longest non-preemptive segment is B + 1 (blocking bound B)
         tasks.append({"arr": ("per", 10 ** 6), "C": B + 1, "seg": B + 1})
     return kind, tasks, idx
+
+
+def system_from_op(op):
+    """inverse of `system_op` for analysis operation lines with scalar costs and arrival models that
+    `parse_arr` understands (aggregated interfering demands are flattened: their demands add up);
+    raises Unsupported otherwise"""
+    t = op.split()
+    kind, lim = t[0], int(t[-1])
+    sd = {"kind": kind, "limit": lim, "B": 0, "D": 0}
+    rb = lambda a, c: ("rbf", a, ("sc", c))
+    i = 1
+    if kind == "fifo":
+        x, i = parse_rb_flat(t, 1)
+        sd["tasks"] = ("ragg", [rb(a, c) for a, c in x])
+        return sd
+    if kind in ("fp_p", "fp_fl", "edf_p", "edf_fl"):
+        x, i = parse_rb_flat(t, i)
+        if len(x) != 1:
+            raise Unsupported("aggregate tua")
+        sd["tua"] = rb(*x[0])
+    else:
+        a, i = parse_arr(t, i)
+        sd["arr"], sd["C"] = a, int(t[i]); i += 1
+        sd["last"] = sd["C"]
+        sd["tua"] = rb(a, sd["C"])
+    if kind.startswith("edf"):
+        sd["D"] = int(t[i]); i += 1
+    if kind in ("fp_lp", "edf_lp"):
+        sd["last"] = int(t[i]); i += 1
+    if kind in ("fp_fl", "fp_np", "fp_lp"):
+        sd["B"] = int(t[i]); i += 1
+    n = int(t[i]); i += 1
+    others = []
+    for _ in range(n):
+        if kind == "edf_np":
+            a, i = parse_arr(t, i)
+            c, d = int(t[i]), int(t[i + 1]); i += 2
+            others.append({"rb": rb(a, c), "arr": a, "C": c, "D": d, "seg": c})
+            continue
+        x, i = parse_rb_flat(t, i)
+        d, sg = 0, 1
+        if kind.startswith("edf"):
+            d = int(t[i]); i += 1
+            if kind != "edf_p":
+                sg = int(t[i]); i += 1
+        others += [{"rb": rb(a, c), "arr": a, "C": c, "D": d, "seg": sg} for a, c in x]
+    sd["others"] = others
+    if i != len(t) - 1:
+        raise Unsupported("trailing tokens")
+    return sd
 
 
 def schedule_search(kind, tasks, i, R, rng, reps, op, r, cex, nontrivial):
@@ -1038,6 +1116,36 @@ def falsify_C17(ctx):
             chain_ops.append(system_op(h))
         for b, h in zip(chain_ops, chain_ops[1:]):
             pairs.append((b, h, w, kind))
+    # the same sweeps for the ROS 2 timer / polling-point / event-source analyses (own jitter and period
+    # of the analysed callback crossing every multiple of the period; interference with larger WCETs)
+    nros = 45 if ctx["tier"] == "quick" else 2000
+    for i in range(nros):
+        k = wchoice(rng, [(1, "es"), (3, "tm"), (2, "pp")])
+        ssup = gen.supply_str(st_mod.gen_ros_supply(rng) if rng.random() < 0.5 else ("ded",))
+        T = rng.randint(3, 24)
+        c = rng.randint(1, 3)
+        interf = [(("per", rng.randint(4, 20)) if rng.random() < 0.5 else ("spo", rng.randint(4, 20), rng.randint(0, 8)), rng.randint(1, 6))
+                  for _ in range(rng.randint(1, 2))]
+        it = f"ragg {len(interf)}" + "".join(f" rbf {gen.arr_str(a)} sc {cc}" for a, cc in interf)
+        B = rng.randint(0, 3)
+        lim = rng.randint(300, 900)
+        if rng.random() < 0.65:
+            chain = [("spo", T, J) for J in range(0, 2 * T + 3)]
+            w = "ros_sweep_jitter"
+        else:
+            J = rng.randint(0, 2 * T)
+            chain = [("spo", T2, J) for T2 in range(T + 4, 0, -1)]
+            w = "ros_sweep_period"
+        def rend(a):
+            own = f"rbf {gen.arr_str(a)} sc {c}"
+            if k == "es":
+                return f"ros_es {ssup} {own} {lim}"
+            if k == "tm":
+                return f"ros_tm {ssup} {own} {it} {B} {lim}"
+            return f"ros_pp {ssup} {own} {it} {lim}"
+        chain_ops = [rend(a) for a in chain]
+        for b, h in zip(chain_ops, chain_ops[1:]):
+            pairs.append((b, h, w, "ros_" + k))
     ops = [p[0] for p in pairs] + [p[1] for p in pairs]
     res = real(ops)
     half = len(pairs)
@@ -1056,7 +1164,7 @@ def falsify_C17(ctx):
         elif len(samples) < 5 and rb.startswith("ok") and rh.startswith("ok") and rb != rh:
             samples.append({"hardening": what, "base": b, "base_result": rb, "hardened": h, "hardened_result": rh})
     return {"cases": len(pairs), "nontrivial": len(nontrivial),
-            "rule": "random base systems for the nine dedicated-processor analyses and the ROS 2 analyses (scalar costs) x one single-parameter hardening (WCET, jitter, period, blocking, other task's segment, added task/callback, weaker supply, larger limit); real results compared in the order ok a <= ok b <= divergence (limit: Ok unchanged); the analysed task's OWN last non-preemptive segment is not a hardening and is not varied; non-trivial = distinct pair with a positive base bound",
+            "rule": "random base systems for the nine dedicated-processor analyses and the ROS 2 analyses (scalar costs) x one single-parameter hardening (WCET, jitter, period, blocking, other task's segment, added task/callback, weaker supply, larger limit); real results compared in the order ok a <= ok b <= divergence (limit: Ok unchanged); chains of consecutive jitter / period hardenings of the analysed task resp. callback crossing every multiple of the period (FP, EDF, FIFO and the ROS 2 timer / polling-point / event-source analyses); the analysed task's OWN last non-preemptive segment is not a hardening and is not varied; non-trivial = distinct pair with a positive base bound",
             "counterexamples": cex, "samples": samples, "distribution": dist}
 
 
@@ -1177,8 +1285,46 @@ def falsify_C19(ctx):
                 cex.append({"kind": "special_case_disagreement", "what": what, "op": a, "impl": ra, "other_op": b, "other_impl": rbs[0]})
             elif len(samples) < 4 and ra.startswith("ok") and ra != "ok 0":
                 samples.append({"what": what, "op": a, "impl": ra, "other": b})
+    # event source vs FIFO with TIGHT divergence limits: the smallest limit for which the FIFO analysis
+    # converges is the busy-window length L (bisection on the real code); both analyses are then
+    # compared for every limit in L .. L + 15 (both must converge there, with the same bound)
+    m3 = 40 if ctx["tier"] == "quick" else 1500
+    done3 = 0
+    for what, a, b, extra in pairs:
+        if what != "es_fifo" or done3 >= m3:
+            continue
+        base_f = b.rsplit(" ", 1)[0]
+        base_e = a.rsplit(" ", 1)[0]
+        r0 = real([f"{base_f} 3000"])[0]
+        if not r0.startswith("ok ") or r0 == "ok 0":
+            continue
+        lo, hi = int(r0.split()[1]), 3000          # fifo(lo - 1) diverges or lo is the bound itself
+        lo = max(lo, 1)
+        if real([f"{base_f} {lo}"])[0].startswith("ok "):
+            hi = lo
+        while lo < hi:
+            mid = (lo + hi) // 2
+            if real([f"{base_f} {mid}"])[0].startswith("ok "):
+                hi = mid
+            else:
+                lo = mid + 1
+        L = lo
+        if L > 2500:
+            continue
+        done3 += 1
+        lims = list(range(L, L + 16))
+        rf = real([f"{base_f} {x}" for x in lims])
+        re_ = real([f"{base_e} {x}" for x in lims])
+        dist["es_fifo_tight_limit_sweeps"] = dist.get("es_fifo_tight_limit_sweeps", 0) + 1
+        for x, u, v in zip(lims, re_, rf):
+            if u != v and "panic" not in (u, v):
+                nv_es, nv_ff = common.run_parallel(common.lean_bin(), [f"nv_{base_e} {x}", f"nv_{base_f} {x}"])
+                cex.append({"kind": "event_source_ne_fifo", "op": f"{base_e} {x}", "impl": u, "fifo_op": f"{base_f} {x}", "fifo_impl": v,
+                            "both_equal_their_naive_spec": (u == nv_es and v == nv_ff),
+                            "naive_event_source": nv_es, "naive_fifo": nv_ff, "busy_window_length": L})
+                break
     return {"cases": len(pairs), "nontrivial": len(nontrivial),
-            "rule": "pairs (or tuples) of REAL analyses on corresponding inputs: LP-FP(last=1,B=0) vs preemptive FP, LP-FP(last=C) vs NP-FP, floating vs LP(last=1), the three EDF analogues, max NP-EDF vs FIFO for equal deadlines, every ROS 2 analysis under dedicated / periodic(Q=P) / constrained(Q=D=P) / default-service-time wrappers, event source vs FIFO on a dedicated processor; non-trivial = distinct first op with a positive bound",
+            "rule": "pairs (or tuples) of REAL analyses on corresponding inputs: LP-FP(last=1,B=0) vs preemptive FP, LP-FP(last=C) vs NP-FP, floating vs LP(last=1), the three EDF analogues, max NP-EDF vs FIFO for equal deadlines, every ROS 2 analysis under dedicated / periodic(Q=P) / constrained(Q=D=P) / default-service-time wrappers, event source vs FIFO on a dedicated processor (also for every divergence limit from the busy-window length to 15 beyond it); non-trivial = distinct first op with a positive bound",
             "counterexamples": cex, "samples": samples, "distribution": dist}
 
 
@@ -1324,8 +1470,52 @@ def falsify_C20(ctx):
     probe = real(["ccvec cc_ext 0 cc 3 1 2 3"])[0]
     if probe == "panic":
         cex.append({"kind": "wcet_extrapolate_zero", "op": "ccvec cc_ext 0 cc 3 1 2 3", "checked": probe})
-    return {"cases": len(ops) + len(rops) + len(qops) + 1, "nontrivial": len(nontrivial),
-            "rule": "the same operations (well-formed task systems for the nine analyses, well-formed ROS 2 workloads, model queries) executed by three builds of the harness: debug assertions + overflow checks, optimised release, release + overflow checks; outcome = value / panic / hang; any difference or any panic/hang is a counterexample; non-trivial = distinct op with a proper value in all three builds",
+    # (5) guided by a broken correspondence: every operation on which model and code disagree is executed
+    # by the three builds, and the arrival model of a disagreeing model query is transplanted into
+    # analyses (whose debug-only cross-checks query the models in a different order than release builds)
+    gops = []
+    seen_terms = set()
+    for d in ((ctx.get("corr") or {}).get("disagreements") or [])[:400]:
+        op = d.get("op", "")
+        t = op.split()
+        if not t:
+            continue
+        if len(gops) < 300:
+            gops.append(op)
+        if t[0] in ("na", "nas", "steps", "dsteps") and len(seen_terms) < 25:
+            try:
+                a, j = parse_arr(t, 1)
+            except (Unsupported, ValueError, IndexError):
+                continue
+            term = " ".join(t[1:j])
+            if term in seen_terms or a[0] in ("never",):
+                continue
+            seen_terms.add(term)
+            for rep in range(6):
+                c1, c2 = rng.randint(1, 4), rng.randint(1, 3)
+                P, co = rng.randint(8, 40), rng.randint(2, 7)
+                lim = rng.randint(200, 600)
+                gops += [f"ros_ch ded rbf {term} sc {c1} rbf {term} sc {c2} rbf {term} sc {c1 + c2} ragg 1 rbf per {P} sc {co} {lim}",
+                         f"ros_tm ded rbf {term} sc {c1} ragg 1 rbf per {P} sc {co} {rng.randint(0, 3)} {lim}",
+                         f"ros_pp ded rbf {term} sc {c1} ragg 1 rbf per {P} sc {co} {lim}",
+                         f"ros_es ded ragg 2 rbf {term} sc {c1} rbf per {P} sc {co} {lim}",
+                         f"fifo ragg 2 rbf {term} sc {c1} rbf per {P} sc {co} {lim}",
+                         f"fp_p rbf {term} sc {c1} 1 rbf per {P} sc {co} {lim}",
+                         f"edf_p rbf {term} sc {c1} {rng.randint(5, 40)} 1 rbf per {P} sc {co} {rng.randint(5, 40)} {lim}"]
+    if gops:
+        gops = [gen.cap_dense(o) for o in gops]
+        rc, rr, rk = real3(gops)
+        dist["correspondence_guided_ops"] = len(gops)
+        for op, a, b, c in zip(gops, rc, rr, rk):
+            if a == b == c:
+                continue
+            kind_ = "ros_profile_dependent_or_panic" if op.split()[0].startswith(("ros_", "rr", "bw")) else \
+                ("profile_dependent_or_panic" if op.split()[0] in gen.ANALYSIS_OPS else "query_profile_dependent")
+            cex.append({"kind": kind_, "op": op, "checked": a[:200], "release": b[:200], "release_overflow_checks": c[:200],
+                        "reasons": op_reasons(op), "tua_never_releases": False,
+                        "found_by": "search guided by a correspondence disagreement"})
+    return {"cases": len(ops) + len(rops) + len(qops) + 1 + len(gops), "nontrivial": len(nontrivial),
+            "rule": "the same operations (well-formed task systems for the nine analyses, well-formed ROS 2 workloads, model queries; when the correspondence is broken also the disagreeing operations and analyses built around the arrival models of disagreeing queries) executed by three builds of the harness: debug assertions + overflow checks, optimised release, release + overflow checks; outcome = value / panic / hang; any difference or any panic/hang is a counterexample; non-trivial = distinct op with a proper value in all three builds",
             "counterexamples": cex, "samples": samples, "distribution": dist}
 
 
